@@ -12,7 +12,7 @@ import subprocess
 import sys
 
 ROOT = os.path.dirname(os.path.dirname(os.path.abspath(__file__)))
-REPO = "/repo"
+REPO = os.environ.get("VERIF_REPO", "/repo")      # a snapshot of /repo when run in the background (vp run --with-repo)
 
 
 def sh(cmd, **kw):
